@@ -538,3 +538,22 @@ Proof.
   - exact (ss_observe_restriction obsmap interp1 G sol).
   - intros gs go. exact (ss_observe_interp obsmap interp1 G gs go sol).
 Qed.
+
+(* corollary: with a solver that is exact on every system it is handed, all levels satisfy the implicit recurrence *)
+Theorem backward_euler_exact_solver (P I : Type) (solver : nat -> qm -> qv -> sret I) (form : P -> Qc -> qm * qv * qv)
+        (Q : quirks) (p : P) (times : qv) (levels : list qv) (info : option (list I)) :
+  (forall k M r, qmatvec M (sret_sol (solver k M r)) = r) ->
+  td_solve P I solver form Q MBwd (Some p) times = Ok (levels, info) ->
+  forall k, (S k < length times)%nat ->
+    let dt := (nth (S k) times 0 - nth k times 0)%Qc in
+    qvsub (nth (S k) levels []) (qvscale dt (qmatvec (fA P form p (nth (S k) times 0)) (nth (S k) levels [])))
+      = qvadd (nth k levels []) (qvscale dt (fb P form p (nth (S k) times 0))).
+Proof.
+  intros Hex H k Hk.
+  destruct (backward_euler P I solver form Q p times levels info H) as [_ [_ Hall]].
+  specialize (Hall k Hk). cbn zeta in Hall. destruct Hall as [_ [_ Hrec]]. cbn zeta. apply Hrec. apply Hex.
+Qed.
+
+(* a single observation time through the interpolation route: the (n_obs, 1) array is squeezed to the vector *)
+Theorem squeeze_single_time (v : qv) : (2 <= length v)%nat -> squeeze (A2 (map (fun x => [x]) v)) = A1 v.
+Proof. exact (squeeze_column v). Qed.
